@@ -183,7 +183,7 @@ def gen_list_history(rng, length):
 
 
 SIG_WEIGHTS = {"N": 3, "C": 12, "X": 5, "SM": 3, "SA": 5, "SD": 2, "call": 4,
-               "HA": 3, "HW": 2, "KP": 4, "KO": 2, "KE": 3, "KC": 2, "KA": 2}
+               "HA": 3, "HW": 2, "KP": 4, "KO": 2, "KE": 3, "KC": 2, "KA": 2, "ACT": 5, "rcall": 6}
 FAMS = "SPVW"            # S int/unregister, P int/plain, V void/unregister, W void/plain
 N_CONTS = 3
 
@@ -196,6 +196,9 @@ class SigState:
         self.fam = {}                               # signal id -> "S" | "P" | "V" | "W"
         self.own = {}                               # owner (holder h = h, container c = 16 + c) -> [connection ids]
         self.nextf = 1
+        self.cb = {}                                # connection id -> callback id
+        self.acts = {}                              # callback id -> ("R", owner) | ("C", h, s, f2, u)
+        self.comb = {}                              # signal id -> combiner present (False: moved-from)
 
     def copy(self):
         c = SigState()
@@ -203,7 +206,39 @@ class SigState:
         c.fam = dict(self.fam)
         c.own = {k: list(v) for k, v in self.own.items() if v}
         c.nextf = self.nextf
+        c.cb = dict(self.cb)
+        c.acts = dict(self.acts)
+        c.comb = dict(self.comb)
         return c
+
+    def sim_rcall(self, k, apply=False):
+        """mirror of the call loop with effectful callbacks. Returns False if the call would be undefined behaviour (a callback
+        lets go of its own connection), would call a moved-from combiner or would not end within 40 steps"""
+        g = self if apply else self.copy()
+        h = f"h{k}"
+        cur = g.st.next(h)
+        if cur != h and g.fam[k] in "SP" and not g.comb.get(k, False):
+            return False
+        steps = 0
+        while cur != h:
+            steps += 1
+            if steps > 40:
+                return False
+            x = int(cur[1:])
+            a = g.acts.get(g.cb[x])
+            if a and a[0] == "R":
+                if x in g.o(a[1]):
+                    return False
+                g.kill(g.o(a[1]))
+                g.own[a[1]] = []
+            elif a and a[0] == "C":
+                _, hh, s2, f2, u = a
+                if not g.o(hh) and hh not in g.conns() and s2 in g.fam:
+                    g.st.apply(f"E {hh} {s2}")
+                    g.own[hh] = [hh]
+                    g.cb[hh] = f2
+            cur = g.st.next(cur)
+        return True
 
     def o(self, k):
         return self.own.get(k, [])
@@ -228,20 +263,38 @@ class SigState:
         a = [int(x) for x in t[1:]]
         if o in ("call", "vcall"):
             return
-        if o[1] == "N" and o[0] in FAMS:
+        if o in ("rcall", "rvcall"):
+            assert self.sim_rcall(a[0], apply=True), op
+        elif o == "AN":
+            self.acts.pop(a[0], None)
+        elif o == "AR":
+            self.acts[a[0]] = ("R", a[1])
+        elif o == "AK":
+            self.acts[a[0]] = ("R", 16 + a[1])
+        elif o == "AC":
+            self.acts[a[0]] = ("C", a[1], a[2], a[3], a[4])
+        elif o[1] == "N" and o[0] in FAMS:
             self.fam[a[0]] = o[0]
+            self.comb[a[0]] = True
             self.st.apply(op)
         elif o[1] == "C" and o[0] in FAMS:
             self.st.apply(op)
             self.own[a[0]] = self.o(a[0]) + [a[0]]
+            self.cb[a[0]] = a[2]
             self.nextf = self.nextf % 97 + 1
         elif o == "SM":
             self.fam[a[0]] = self.fam[a[1]]
+            self.comb[a[0]] = self.comb[a[1]]
+            self.comb[a[1]] = False
             self.st.apply(op)
         elif o in ("SA", "SD"):
             self.st.apply(op)
+            if o == "SA" and a[0] != a[1]:
+                self.comb[a[0]] = self.comb[a[1]]
+                self.comb[a[1]] = False
             if o == "SD":
                 del self.fam[a[0]]
+                del self.comb[a[0]]
         elif o == "SX":
             self.kill(self.o(a[0]))
             self.own[a[0]] = []
@@ -301,6 +354,22 @@ class SigState:
         cand["KE"] = [f"KE {c} {i}" for c in range(n_conts) for i in range(len(self.o(16 + c)))]
         cand["KC"] = [f"KC {c}" for c in range(n_conts) if self.o(16 + c)]
         cand["KA"] = [f"KA {c} {c2}" for c in range(n_conts) for c2 in range(n_conts) if c != c2 and (self.o(16 + c) or self.o(16 + c2))]
+        if rng and used:
+            fs = sorted(set(self.cb[x] for x in used))
+            f = rng.choice(fs)
+            k = rng.below(4)
+            if k == 0:
+                cand["ACT"] = [f"AR {f} {rng.below(conn_ids)}"]
+            elif k == 1:
+                cand["ACT"] = [f"AK {f} {rng.below(n_conts)}"]
+            elif k == 2:
+                cand["ACT"] = [f"AC {f} {rng.below(conn_ids)} {rng.choice(ls) if ls and rng.chance(3, 4) else rng.below(sig_ids)} {60 + rng.below(37)} {rng.below(6)}"]
+            else:
+                cand["ACT"] = [f"AN {f}"]
+            rc = [(f"rcall {k} {rng.below(50)} {rng.below(50)}" if self.fam[k] in "SP" else f"rvcall {k} {rng.below(50)}")
+                  for k in ls if self.sim_rcall(k)]
+            if rc:
+                cand["rcall"] = rc
         return {k: v for k, v in cand.items() if v}
 
 
@@ -367,6 +436,42 @@ def enum_sig_small(depth, only=None):
                     rec(g2, seq + [op], d - 1)
 
         rec(g0, [], depth)
+    return out
+
+
+def enum_reentrant():
+    """a signal with three connections (two held by holders, one by a container) and a second signal of the same kind with one;
+    every pair of (callback, effect) x (callback, effect) where an effect is: let go of any owner, connect into a free or a taken
+    holder to either signal; then the call twice.  Calls that would be undefined behaviour (a callback letting go of its own
+    connection) are left out."""
+    out = []
+    for fm in FAMS:
+        u = fm in "SV"
+
+        def conn(x, k, f):
+            return f"{fm}C {x} {k} {f} {x}" if u else f"{fm}C {x} {k} {f}"
+
+        def new(k):
+            return f"{fm}N {k} {k + 1}" if fm in "SP" else f"{fm}N {k}"
+
+        pre = [new(0), conn(0, 0, 1), conn(1, 0, 2), conn(2, 0, 3), new(1), conn(3, 1, 4), "KP 0 1"]
+        effects = [f"AR {{f}} {h}" for h in (0, 2, 3, 5)] + ["AK {f} 0", "AK {f} 1"] + \
+                  [f"AC {{f}} {h} {k} {f2} 7" for h, f2 in ((4, 5), (0, 6)) for k in (0, 1, 2)]
+        call = "rcall 0 1 2" if fm in "SP" else "rvcall 0 2"
+        singles = [[e.format(f=f)] for f in (1, 2, 3, 5) for e in effects]
+        pairs = [a + b for a in singles for b in singles if a[0].split()[1] < b[0].split()[1]]
+        for acts in [[]] + singles + pairs:
+            h = pre + acts
+            g = SigState()
+            for o in h:
+                g.apply(o)
+            if not g.sim_rcall(0):
+                continue
+            g.apply(call)
+            h = h + [call]
+            if g.sim_rcall(0):
+                h = h + [call]
+            out.append(h)
     return out
 
 
@@ -642,6 +747,10 @@ def batches(rng, tier):
             deep = maximal_only(enum_sig_small(4, only=[idx]))
             yield Batch(f"signals-small-scope-depth4-s{idx}", flat(deep), kind="history", exhaustive=True,
                         note=f"every valid sequence of <= 4 operations after signal scenario {idx}; {len(deep)} maximal histories")
+    re = enum_reentrant()
+    yield Batch("signals-reentrant", flat(re), kind="history", exhaustive=True,
+                note=f"calls whose callbacks let go of connections / connect new ones while the signal is being called: every single effect and every "
+                     f"pair of effects on a signal with three connections, all four instantiations; {len(re)} histories")
     r = rng.fork("signals")
     n, ln = (10000, 50) if thorough else (1500, 30)
     hs = [gen_sig_history(r, r.range(ln // 2, ln)) for _ in range(n)]
